@@ -16,7 +16,7 @@ from .. import alphabet as al, common, dsl, explore, rx
 from ..common import V
 from ..env import NS
 
-D = [-1, 0, 1, 2, 3, 5, None, True, 1.0, '1']
+D = [-1, 0, 1, 2, 3, 5, None, True, False, 1.0, 0.0, '1']
 INT = lambda v: isinstance(v, int) and not isinstance(v, bool)  # noqa: E731
 
 
@@ -94,6 +94,15 @@ def _bounds(name, args):
     if name == 'one_or_more':
         return 'ok', 1, None
     return table(name, args)
+
+
+def _spell_code(xexpr, srcs, lab_a, lab_b):
+    lines = ['x = ' + xexpr, 'def outcome(f):', '    try:', "        return ('ok', str(f()))", '    except Exception as e:',
+             "        return ('raise', type(e).__name__)",
+             'a = outcome(lambda: %s)' % srcs[lab_a].replace('_o', 'x'),
+             'b = outcome(lambda: %s)' % srcs[lab_b].replace('_o', 'x'),
+             'assert a == b, (a, b)']
+    return '\n'.join(lines)
 
 
 def witness(text):
@@ -177,7 +186,8 @@ def _task(descs):
                     if got != EXC[verdict]:
                         viol.append(V('C04|reject|' + label + '|' + lab,
                                       f"{x.expr}: {name}{args} ({lab}) must raise {EXC[verdict]}, got {got}",
-                                      code_for(lab)))
+                                      code_for(lab).replace('\nr = ', '\ntry:\n    r = ') +
+                                      f"\nexcept {EXC[verdict]}:\n    pass\nelse:\n    raise AssertionError('accepted: ' + str(r))"))
                 continue
             # (iii) spellings agree
             sigs = [(lab, dsl.outcome_sig(o)) for lab, o in outs]
@@ -185,7 +195,7 @@ def _task(descs):
                 if sig != sigs[0][1]:
                     viol.append(V('C04|spelling|' + label + '|' + lab,
                                   f"{x.expr}: {name}{args} {sigs[0][0]} -> {sigs[0][1]!r} but {lab} -> {sig!r}",
-                                  code_for(lab) + '\n# compare with\n' + code_for(sigs[0][0]).split('\n')[1]))
+                                  _spell_code(x.expr, dict((l, s_) for l, _, s_ in spell), sigs[0][0], lab)))
             kind, val = outs[0][1]
             if kind == 'raise':
                 if type(val).__name__ == 'CannotBeRepeatedException':
